@@ -234,6 +234,7 @@ func runLocks(r *hx.Rec, property string) {
 			// lock files this process removed itself (name -> true)
 			unlockedClean      bool
 			lockRemovedByOther bool
+			staleLockRemoved   bool // another process removed this holder's lock file when it was stale for that process
 			staleSig           string // signature of the first stops-before-stale episode of the current belief
 		}
 		var mu sync.Mutex
@@ -348,6 +349,9 @@ func runLocks(r *hx.Rec, property string) {
 					// somebody else removed one of the holder's lock files: from now on the holder may
 					// legitimately end up without any lock file (it notices and gives up)
 					holder.lockRemovedByOther = true
+					if rm := byPID[removedBy[m.H.Name]]; rm != nil && time.Now().Add(rm.proc.ClockOffset).Sub(li.Time) > 30*time.Minute {
+						holder.staleLockRemoved = true
+					}
 				}
 				if holder == nil || m.Client != holder.cl {
 					return
@@ -377,6 +381,11 @@ func runLocks(r *hx.Rec, property string) {
 				return
 			}
 			r.Count("work_ops", 1)
+			// (e) standby scenario: the holder's stale lock file was removed by someone else while the holder
+			// slept; once it is awake (and had a moment to look) it must not modify the repository any more
+			if holder.plan.StandbyFor != 0 && holder.staleLockRemoved && !inStandby(holder) && holder.belief.active && holder.belief.ctx.Err() == nil {
+				fail("stops-after-removal", "works-after-stale-lock-was-removed", "%s starts %s %v although its lock file, stale for the others after the standby, was removed by another process (t=%v)", holder.proc.Name, op, h, s.Elapsed())
+			}
 			// (b) a repository modification starts: the holder's newest lock file must not be
 			// judged stale yet by any other process within the assumed clock bound
 			if li, ok := newest(holder); ok && !inStandby(holder) {
@@ -465,6 +474,7 @@ func runLocks(r *hx.Rec, property string) {
 					mu.Lock()
 					ps.belief = kBelief{active: true, excl: pl.Excl, ctx: lctx}
 					ps.lockRemovedByOther = false
+					ps.staleLockRemoved = false
 					ps.staleSig = ""
 					mu.Unlock()
 					// work while the lock context is live
